@@ -181,6 +181,24 @@ func TestC17(t *testing.T) {
 		for _, tb := range s.Tables {
 			allTables[tb.Name] = map[string]interface{}{}
 		}
+		// often a bystander monitors a few columns only (its stream is not looked at): what the
+		// other monitors are told must not depend on it
+		if rapid.IntRange(0, 2).Draw(t, "narrowpeer") > 0 {
+			rp, err := kit.DialRaw(srv.Sock)
+			if err != nil {
+				t.Fatal(err)
+			}
+			defer rp.Close()
+			narrow := map[string]interface{}{
+				"Counter": map[string]interface{}{"columns": []string{"name"}}, "Item": map[string]interface{}{"columns": []string{"key"}},
+				"Parent": map[string]interface{}{"columns": []string{"name"}}, "Log": map[string]interface{}{"columns": []string{"client"}}, "Child": map[string]interface{}{"columns": []string{}},
+			}
+			var reply json.RawMessage
+			if err := rp.Call(rapid.SampledFrom([]string{"monitor", "monitor_cond"}).Draw(t, "narrowmethod"), []interface{}{s.Name, "narrow", narrow}, &reply); err != nil {
+				t.Fatalf("monitor: %v", err)
+			}
+			kit.Label("C17", "column-selecting-bystander")
+		}
 		for i := 0; i < npeers; i++ {
 			rp, err := kit.DialRaw(srv.Sock)
 			if err != nil {
